@@ -182,10 +182,18 @@ class World(object):
     def build_combo(self, terms):
         """q1*t1 + q2*t2 + ... with the real Function operators (all of + - unary- * / are used)"""
         F = None
+        aliased = False
         for n, (fid, q) in enumerate(terms):
             f = self.funcs[fid]
             fr = to_fraction(q)
             if F is None:
+                if fr == 1 and len(terms) >= 2 and abs(to_fraction(terms[1][1])) == 1:
+                    # the user's accumulation idiom `F = f; F += g` / `F -= g`: the augmented assignment must build a
+                    # NEW function and leave the registered f (possibly already evaluated, possibly a composite held
+                    # elsewhere) as it was (seed C07-12: in-place __iadd__ / __isub__ on composites)
+                    F = f
+                    aliased = True
+                    continue
                 if fr == -1:
                     F = -f
                 elif fr.numerator == 1 and fr.denominator > 1:
@@ -195,7 +203,12 @@ class World(object):
                 else:
                     F = f * q
             else:
-                if fr == 1:
+                if aliased and n == 1:
+                    if fr == 1:
+                        F += f
+                    else:
+                        F -= f
+                elif fr == 1:
                     F = F + f
                 elif fr == -1:
                     F = F - f
